@@ -16,7 +16,7 @@ package main
 // F lists, for every G message in order of delivery, the bytes its image object holds at the END of the history
 // (the G token itself is printed at the moment of delivery), <token> = index of the first G message of the
 // section sharing the same *HWCGfx object.
-// STATE  := <count> <max> <listhex> <typehex> <n|number of buffered lines>
+// STATE  := <count> <max> <listhex> <typehex> <n | k:linehex,…,linehex (the k buffered lines)>
 
 import (
 	"encoding/base64"
@@ -122,8 +122,12 @@ func (s *gfxSeen) finals(sb *strings.Builder) {
 
 func readerState(sb *strings.Builder, ar *rawpanellib.ASCIIreader) {
 	buf := "n"
-	if ar.HWCGfx != nil {
-		buf = strconv.Itoa(len(ar.HWCGfx))
+	if ar.HWCGfx != nil { // number of buffered lines, then the lines themselves (what the JSON hop made of them)
+		parts := make([]string, len(ar.HWCGfx))
+		for i, l := range ar.HWCGfx {
+			parts[i] = hx([]byte(l))
+		}
+		buf = strconv.Itoa(len(ar.HWCGfx)) + ":" + strings.Join(parts, ",")
 	}
 	fmt.Fprintf(sb, " R %d %d %s %s %s", ar.HWCGfx_count, ar.HWCGfx_max, hx([]byte(ar.HWCGfx_HWClist)), hx([]byte(ar.HWCGfx_ImageType)), buf)
 }
@@ -526,9 +530,9 @@ func genLong(r *Rng, maxLines int) {
 		case 6: // corrupt payload
 			i := r.Intn(len(run))
 			run[i] = run[i][:len(run[i])-1]
-		case 7: // whitespace around a line
+		case 7: // white space around a line: ASCII, the Unicode spaces strings.TrimSpace strips, and bytes that only look like them
 			i := r.Intn(len(run))
-			run[i] = []string{" ", "\t", ""}[r.Intn(3)] + run[i] + []string{" ", "\r", "\r\n", "  "}[r.Intn(4)]
+			run[i] = gfxLead[r.Intn(len(gfxLead))] + run[i] + gfxTrail[r.Intn(len(gfxTrail))]
 		}
 		// pass-through lines
 		for j := 0; j < len(run)+1 && r.Chance(25); j++ {
@@ -541,6 +545,71 @@ func genLong(r *Rng, maxLines int) {
 		lines = lines[:maxLines]
 	}
 	emitHist(lines)
+}
+
+// white space for the ends of a line: what strings.TrimSpace strips (ASCII, U+0085, U+00A0, U+1680, U+2000-200A, U+2028/9,
+// U+202F, U+205F, U+3000) and near misses it must keep (a lone continuation byte 0x85 / 0xA0, a truncated U+00A0,
+// U+200B zero width space, U+FEFF)
+var gfxLead = []string{" ", "\t", "", "", "\u00a0", "\u0085", "\u2028\u3000", "\u1680 ", "\xa0", "\u200b", "\ufeff"}
+var gfxTrail = []string{" ", "\r", "\r\n", "  ", "", "\u00a0", "\u0085\u2029", "\u3000 ", "\u205f\u202f", "\u2000\u200a", "\xa0", "\xc2", "\x85", "\xe2\x80", "\u200b"}
+
+// genEdge: fixed and random histories at the edges of the model's trusted pieces: Unicode white space at the ends of
+// lines (streaming reader trims, batch call does not), invalid UTF-8 in a held chunk line (rewritten to U+FFFD by the
+// JSON hop), numbers around 2^32 and 2^63 and with many leading zeros (su.Intval clamps, uint32() wraps)
+func genEdge(r *Rng, n int) {
+	c0, c1 := "HWCg#5=0/1,8x8:AQ==", "HWCg#5=1:Ag=="
+	fixed := [][]string{
+		{c0, c1 + "\u00a0"}, {"\u00a0" + c0 + "\u0085", "\u0085" + c1}, {c0 + "\u2028", c1 + "\u3000"}, {c0, c1 + "\xa0"},
+		{c0 + "\xff", c1}, {"HWCg#5=0/2,8x8:AQ==", "HWCg#5=1:Ag\xff==", "HWCg#5=2:Aw=="}, {"HWCg#5=0/2,8x8:AQ==\xff", "HWCg#5=1:Ag==", "HWCg#5=2:Aw=="},
+		{"HWCg#5=0/2,8x8:AQ==", "HWCg#5=1:\xc3\x28Ag==", "HWCg#5=2:Aw=="}, {"HWCg#5=0/2,8x8:A\u00e9Q==", "HWCg#5=1:Ag==", "HWCg#5=2:Aw=="},
+		{"HWCg#5=0/1,8x8:A\rQ==", c1}, {"HWCg#5=0/2,8x8:AQ==", "HWCg#5=1:Ag==\xe2\x80", "HWCg#5=2:Aw=="},
+		// a history that ENDS with invalid UTF-8 still held: the final J state shows the line as the JSON hop rewrote it
+		{"HWCg#5=0/2,8x8:AQ==\xff"}, {"HWCg#5=0/2,8x8:AQ==", "HWCg#5=1:Ag\xff=="}, {"HWCg#5=0/3,8x8:\xc0\xafAQ==", "HWCg#5=1:Ag==\xed\xa0\x80", "HWCg#5=2:\xf4\x90\x80\x80"},
+		{"HWCg#5=0/2,8x8:A\u00e9\u2028Q==", "HWCg#5=1:<&>\x01\x7f"},
+		{"HWCg#4294967295=0/0,8x8:AQ=="}, {"HWCg#4294967296=0/0,8x8:AQ=="}, {"HWCg#4294967301=0/0,8x8:AQ=="},
+		{"HWCg#5=0/0,4294967295x4294967296:AQ=="}, {"HWCg#5=0/0,8x8,4294967295,4294967297:AQ=="},
+		{"HWCg#5=0000000000000000000000000/0,4294967295x8:AQ=="}, {"HWCg#5=0/00000000000000000000001,8x8:AQ==", "HWCg#5=000000000000000000001:Ag=="},
+		{"HWCg#5=0/9223372036854775807,8x8:AQ==", "HWCg#5=9223372036854775807:Ag=="}, {"HWCg#5=0/9223372036854775808,8x8:AQ==", "HWCg#5=9223372036854775808:Ag=="},
+		{"HWCg#5=0/18446744073709551616,8x8:AQ==", "HWCg#5=1:Ag=="}, {"HWCg#99999999999999999999,5=0/0,8x8:AQ=="},
+		{"HWCg#5,,6=0/0,8x8:AQ=="}, {"HWCg#,=0/0,8x8:AQ=="}, {"HWCg#05=0/1,8x8:AQ==", "HWCg#5=1:Ag=="},
+	}
+	for _, h := range fixed {
+		emitHist(h)
+	}
+	nums := []string{"0", "1", "00", "007", "4294967295", "4294967296", "4294967297", "9223372036854775806", "9223372036854775807",
+		"9223372036854775808", "18446744073709551615", "18446744073709551616", "00000000000000000000000002", "99999999999999999999999999"}
+	pick := func() string { return nums[r.Intn(len(nums))] }
+	for i := 0; i < n; i++ {
+		ids := pick()
+		if r.Chance(30) {
+			ids += "," + pick()
+		}
+		k := r.Range(0, 2) // declared last index
+		hdr := fmt.Sprintf("/%s,%sx%s", []string{"0", "1", "2", "00", "01", "0000000000000000000002"}[k+3*r.Intn(2)], pick(), pick())
+		if r.Chance(40) {
+			hdr += "," + pick() + "," + pick()
+		}
+		lines := []string{fmt.Sprintf("HWCg#%s=%s%s:%s", ids, []string{"0", "00", "0000000000000000000000"}[r.Intn(3)], hdr, b64(r.Bytes(2)))}
+		for j := 1; j <= 2; j++ {
+			idx := strconv.Itoa(j)
+			if r.Chance(30) {
+				idx = strings.Repeat("0", r.Range(1, 25)) + idx
+			}
+			if r.Chance(10) {
+				idx = pick()
+			}
+			lines = append(lines, fmt.Sprintf("HWCg#%s=%s:%s", ids, idx, b64(r.Bytes(2))))
+		}
+		if r.Chance(30) { // white space / invalid UTF-8 at the ends or inside a held payload
+			j := r.Intn(len(lines))
+			lines[j] = gfxLead[r.Intn(len(gfxLead))] + lines[j] + gfxTrail[r.Intn(len(gfxTrail))]
+		}
+		if r.Chance(15) {
+			j := r.Intn(len(lines))
+			lines[j] = lines[j] + []string{"\xff", "\u00e9", "\xed\xa0\x80", "\xf4\x90\x80\x80", "\xc0\xaf"}[r.Intn(5)]
+		}
+		emitHist(lines)
+	}
 }
 
 func genMatch(r *Rng, n int) {
@@ -610,6 +679,8 @@ func genC05(r *Rng, n int, tier string) {
 	for i := 0; i < n/10; i++ {
 		genRT(r, r.Range(1100, 6000), r.Intn(3), r.Bool(), r.Range(1, 3), r.Chance(30))
 	}
+	// (e) edges of the trusted pieces: Unicode white space, invalid UTF-8 through the JSON hop, numbers around 2^32 / 2^63
+	genEdge(r, 4*n)
 	// (c) random long histories
 	for i := 0; i < n; i++ {
 		genLong(r, r.Pick(10, 20, 50, 100, 200))
